@@ -105,7 +105,7 @@ func (k Keeper) SendCoinsFromModuleToDidBalances(ctx sdk.Context, module string,
 
 	balances, found := k.GetDidBalances(ctx, did)
 	if found {
-		balances.Balance.Add(amount)
+		balances.Balance = balances.Balance.Add(amount)
 	} else {
 		balances = types.DidBalances{
 			Did:     did,
